@@ -60,6 +60,13 @@ def wav_smpl_cue(ch=1, frames=64, extensible=False, ncue=2):
     return b"RIFF" + struct.pack("<I", len(riff)) + riff
 
 
+def au_annotated(nann, ch=1, frames=80):
+    """AU file (16 bit PCM) whose annotation field is nann bytes long: data offset 24 + nann"""
+    data = b"".join(struct.pack(">h", ((i * 37) % 2000) - 1000) for i in range(frames * ch))
+    ann = (b"annotation " * (nann // 11 + 1))[:nann]
+    return b".snd" + struct.pack(">IIIII", 24 + nann, len(data), 3, 8000, ch) + ann + data
+
+
 def crafted():
     """[(fmt, ch, bytes, dataoffset)]"""
     out = []
